@@ -27,9 +27,9 @@
 use crate::util::*;
 use linfa::traits::Transformer;
 use linfa::{DatasetBase, Float, ParamGuard};
-use linfa_clustering::{Dbscan, DbscanParamsError, DbscanValidParams, Optics, OpticsError, OpticsValidParams};
+use linfa_clustering::{Dbscan, DbscanParams, DbscanParamsError, Optics, OpticsAnalysis, OpticsError, OpticsParams};
 use linfa_nn::distance::{Distance, L1Dist, L2Dist, LInfDist, LpDist};
-use linfa_nn::{BuildError, CommonNearestNeighbour, NearestNeighbour};
+use linfa_nn::{BallTree, BuildError, CommonNearestNeighbour, KdTree, LinearSearch, NearestNeighbour};
 use ndarray::{s, Array1, Array2, ArrayView2, ShapeBuilder};
 use std::cell::Cell;
 use std::panic::{catch_unwind, AssertUnwindSafe};
@@ -113,6 +113,9 @@ enum Ctor {
     Default,
     /// `params_with(mp, other dist, other index).dist_fn(dist).nn_algo(index)`
     Setters,
+    /// `params_with(mp, dist, LinearSearch | KdTree | BallTree)`: the index passed as its own struct type
+    /// instead of the `CommonNearestNeighbour` enum
+    Struct,
 }
 impl Ctor {
     fn name(self) -> &'static str {
@@ -120,6 +123,7 @@ impl Ctor {
             Ctor::With => "with",
             Ctor::Default => "default",
             Ctor::Setters => "setters",
+            Ctor::Struct => "struct",
         }
     }
 }
@@ -143,6 +147,11 @@ struct Cfg {
     notol_db: bool,
     /// `.tolerance()` not called: OPTICS default infinity (requires `tol` = inf)
     notol_op: bool,
+    /// `params.transform(x) -> Result` (the form of the doc test: `impl TransformGuard` + the blanket
+    /// `Transformer` of src/param_guard.rs) instead of `params.check_unwrap().transform(x)`
+    unchecked: bool,
+    /// extreme tolerance: "" | "tiny" | "huge" | "smallscale"
+    ext: &'static str,
 }
 
 type OptOut = Vec<(usize, Option<f64>, Option<f64>)>;
@@ -193,7 +202,7 @@ fn with_view<F: Float, R>(pts: &[Vec<f64>], p: usize, lay: Lay, f: impl FnOnce(A
 trait WithDist<F: Float> {
     type Out;
     /// `d` = the configured distance, `d0` = a different value of the same type where one exists
-    fn call<D: Distance<F> + Clone>(self, d: D, d0: D) -> Self::Out;
+    fn call<D: Distance<F> + Clone + PartialEq>(self, d: D, d0: D) -> Self::Out;
 }
 fn with_dist<F: Float, W: WithDist<F>>(m: Met, w: W) -> W::Out {
     match m {
@@ -211,7 +220,7 @@ struct Observe<'a> {
 }
 impl<F: Float> WithDist<F> for Observe<'_> {
     type Out = Real;
-    fn call<D: Distance<F> + Clone>(self, d: D, _d0: D) -> Real {
+    fn call<D: Distance<F> + Clone + PartialEq>(self, d: D, _d0: D) -> Real {
         let cfg = self.cfg;
         // the index is observed on a C-order copy; `transform` gets the configured layout
         with_view::<F, _>(&cfg.pts, cfg.p, Lay::C, |x| {
@@ -238,20 +247,44 @@ struct DbOut {
     labels: Vec<Option<usize>>,
     /// dataset form: the returned records equal the records passed in
     records_kept: bool,
+    /// the accessors of the checked parameters show what was configured
+    accessors_ok: bool,
 }
 
-fn db_transform<F: Float, D: Distance<F>, N: NearestNeighbour>(params: &DbscanValidParams<F, D, N>, cfg: &Cfg) -> DbOut {
+fn db_transform<F: Float, D: Distance<F> + PartialEq, N: NearestNeighbour + PartialEq>(params: DbscanParams<F, D, N>, cfg: &Cfg, d: &D, nn: &N) -> DbOut {
+    let accessors_ok = {
+        let v = params.check_ref().unwrap();
+        v.minimum_points() == cfg.mp && f64of(v.tolerance()) == cfg.tol && v.dist_fn() == d && v.nn_algo() == nn
+    };
     with_view::<F, _>(&cfg.pts, cfg.p, cfg.lay, |v| {
-        if cfg.dataset {
-            // targets of an earlier labelling, to be replaced
-            let ds = DatasetBase::new(v, Array1::from_elem(v.nrows(), 7usize));
-            let out = params.transform(ds);
-            DbOut { labels: out.targets.to_vec(), records_kept: out.records == v }
-        } else if cfg.lay == Lay::C {
-            let owned = v.to_owned();
-            DbOut { labels: params.transform(&owned).to_vec(), records_kept: true }
+        if cfg.unchecked {
+            // unchecked form: `Transformer<R, Result<T, Error>> for DbscanParams`
+            if cfg.dataset {
+                let ds = DatasetBase::new(v, Array1::from_elem(v.nrows(), 7usize));
+                let out: Result<DatasetBase<ArrayView2<F>, Array1<Option<usize>>>, DbscanParamsError> = params.transform(ds);
+                let out = out.unwrap();
+                DbOut { labels: out.targets.to_vec(), records_kept: out.records == v, accessors_ok }
+            } else if cfg.lay == Lay::C {
+                let owned = v.to_owned();
+                let out: Result<Array1<Option<usize>>, DbscanParamsError> = params.transform(&owned);
+                DbOut { labels: out.unwrap().to_vec(), records_kept: true, accessors_ok }
+            } else {
+                let out: Result<Array1<Option<usize>>, DbscanParamsError> = params.transform(&v);
+                DbOut { labels: out.unwrap().to_vec(), records_kept: true, accessors_ok }
+            }
         } else {
-            DbOut { labels: params.transform(&v).to_vec(), records_kept: true }
+            let params = params.check_unwrap();
+            if cfg.dataset {
+                // targets of an earlier labelling, to be replaced
+                let ds = DatasetBase::new(v, Array1::from_elem(v.nrows(), 7usize));
+                let out = params.transform(ds);
+                DbOut { labels: out.targets.to_vec(), records_kept: out.records == v, accessors_ok }
+            } else if cfg.lay == Lay::C {
+                let owned = v.to_owned();
+                DbOut { labels: params.transform(&owned).to_vec(), records_kept: true, accessors_ok }
+            } else {
+                DbOut { labels: params.transform(&v).to_vec(), records_kept: true, accessors_ok }
+            }
         }
     })
 }
@@ -262,21 +295,35 @@ struct RunDb<'a> {
 }
 impl<F: Float> WithDist<F> for RunDb<'_> {
     type Out = DbOut;
-    fn call<D: Distance<F> + Clone>(self, d: D, d0: D) -> DbOut {
+    fn call<D: Distance<F> + Clone + PartialEq>(self, d: D, d0: D) -> DbOut {
         let cfg = self.cfg;
-        let b = match cfg.ctor {
-            Ctor::Setters => Dbscan::params_with::<F, _, _>(cfg.mp, d0, other_index(self.ix)).dist_fn(d).nn_algo(self.ix.clone()),
-            _ => Dbscan::params_with::<F, _, _>(cfg.mp, d, self.ix.clone()),
-        };
-        let b = if cfg.notol_db { b } else { b.tolerance(F::cast(cfg.tol)) };
-        db_transform(&b.check_unwrap(), cfg)
+        let tol = |b: DbscanParams<F, D, CommonNearestNeighbour>| if cfg.notol_db { b } else { b.tolerance(F::cast(cfg.tol)) };
+        match cfg.ctor {
+            Ctor::Setters => db_transform(tol(Dbscan::params_with::<F, _, _>(cfg.mp, d0, other_index(self.ix)).dist_fn(d.clone()).nn_algo(self.ix.clone())), cfg, &d, self.ix),
+            Ctor::Struct => {
+                // same thing with the index as a struct type
+                macro_rules! go {
+                    ($n:expr) => {{
+                        let b = Dbscan::params_with::<F, _, _>(cfg.mp, d.clone(), $n);
+                        let b = if cfg.notol_db { b } else { b.tolerance(F::cast(cfg.tol)) };
+                        db_transform(b, cfg, &d, &$n)
+                    }};
+                }
+                match self.ix {
+                    CommonNearestNeighbour::LinearSearch => go!(LinearSearch::new()),
+                    CommonNearestNeighbour::KdTree => go!(KdTree::new()),
+                    _ => go!(BallTree::new()),
+                }
+            }
+            _ => db_transform(tol(Dbscan::params_with::<F, _, _>(cfg.mp, d.clone(), self.ix.clone())), cfg, &d, self.ix),
+        }
     }
 }
 fn run_dbscan_f<F: Float>(cfg: &Cfg, ix: &CommonNearestNeighbour) -> DbOut {
     if cfg.ctor == Ctor::Default && cfg.m == Met::L2 && *ix == CommonNearestNeighbour::KdTree {
         let b = Dbscan::params::<F>(cfg.mp);
         let b = if cfg.notol_db { b } else { b.tolerance(F::cast(cfg.tol)) };
-        db_transform(&b.check_unwrap(), cfg)
+        db_transform(b, cfg, &L2Dist, ix)
     } else {
         with_dist::<F, _>(cfg.m, RunDb { cfg, ix })
     }
@@ -286,16 +333,27 @@ fn run_dbscan_f<F: Float>(cfg: &Cfg, ix: &CommonNearestNeighbour) -> DbOut {
 struct OpOut {
     out: OptOut,
     accessors_agree: bool,
+    accessors_ok: bool,
 }
-fn op_transform<F: Float, D: Distance<F>, N: NearestNeighbour>(params: &OpticsValidParams<F, D, N>, cfg: &Cfg) -> OpOut {
+fn op_transform<F: Float, D: Distance<F> + PartialEq, N: NearestNeighbour + PartialEq>(params: OpticsParams<F, D, N>, cfg: &Cfg, d: &D, nn: &N) -> OpOut {
+    let accessors_ok = {
+        let v = params.check_ref().unwrap();
+        v.minimum_points() == cfg.mp && f64of(v.tolerance()) == cfg.tol && v.dist_fn() == d && v.nn_algo() == nn
+    };
     with_view::<F, _>(&cfg.pts, cfg.p, cfg.lay, |v| {
-        let res = params.transform(v);
+        let res: OpticsAnalysis<F> = if cfg.unchecked {
+            // the form of the OPTICS unit tests: `Optics::params(..).transform(view) -> Result`
+            let r: Result<OpticsAnalysis<F>, OpticsError> = params.transform(v);
+            r.unwrap()
+        } else {
+            params.check_unwrap().transform(v)
+        };
         let conv = |s: &linfa_clustering::Sample<F>| (s.index(), s.core_distance().map(f64of), s.reachability_distance().map(f64of));
         let out: OptOut = res.iter().map(conv).collect();
         let sl: OptOut = res.as_slice().iter().map(conv).collect();
         let by_index: OptOut = (0..sl.len()).map(|k| conv(&res[k])).collect();
         let by_range: OptOut = res[..].iter().map(conv).collect();
-        OpOut { accessors_agree: sl == out && by_index == out && by_range == out, out }
+        OpOut { accessors_agree: sl == out && by_index == out && by_range == out, out, accessors_ok }
     })
 }
 struct RunOp<'a> {
@@ -304,21 +362,34 @@ struct RunOp<'a> {
 }
 impl<F: Float> WithDist<F> for RunOp<'_> {
     type Out = OpOut;
-    fn call<D: Distance<F> + Clone>(self, d: D, d0: D) -> OpOut {
+    fn call<D: Distance<F> + Clone + PartialEq>(self, d: D, d0: D) -> OpOut {
         let cfg = self.cfg;
-        let b = match cfg.ctor {
-            Ctor::Setters => Optics::params_with::<F, _, _>(cfg.mp, d0, other_index(self.ix)).dist_fn(d).nn_algo(self.ix.clone()),
-            _ => Optics::params_with::<F, _, _>(cfg.mp, d, self.ix.clone()),
-        };
-        let b = if cfg.notol_op { b } else { b.tolerance(F::cast(cfg.tol)) };
-        op_transform(&b.check_unwrap(), cfg)
+        let tol = |b: OpticsParams<F, D, CommonNearestNeighbour>| if cfg.notol_op { b } else { b.tolerance(F::cast(cfg.tol)) };
+        match cfg.ctor {
+            Ctor::Setters => op_transform(tol(Optics::params_with::<F, _, _>(cfg.mp, d0, other_index(self.ix)).dist_fn(d.clone()).nn_algo(self.ix.clone())), cfg, &d, self.ix),
+            Ctor::Struct => {
+                macro_rules! go {
+                    ($n:expr) => {{
+                        let b = Optics::params_with::<F, _, _>(cfg.mp, d.clone(), $n);
+                        let b = if cfg.notol_op { b } else { b.tolerance(F::cast(cfg.tol)) };
+                        op_transform(b, cfg, &d, &$n)
+                    }};
+                }
+                match self.ix {
+                    CommonNearestNeighbour::LinearSearch => go!(LinearSearch::new()),
+                    CommonNearestNeighbour::KdTree => go!(KdTree::new()),
+                    _ => go!(BallTree::new()),
+                }
+            }
+            _ => op_transform(tol(Optics::params_with::<F, _, _>(cfg.mp, d.clone(), self.ix.clone())), cfg, &d, self.ix),
+        }
     }
 }
 fn run_optics_f<F: Float>(cfg: &Cfg, ix: &CommonNearestNeighbour) -> OpOut {
     if cfg.ctor == Ctor::Default && cfg.m == Met::L2 && *ix == CommonNearestNeighbour::KdTree {
         let b = Optics::params::<F>(cfg.mp);
         let b = if cfg.notol_op { b } else { b.tolerance(F::cast(cfg.tol)) };
-        op_transform(&b.check_unwrap(), cfg)
+        op_transform(b, cfg, &L2Dist, ix)
     } else {
         with_dist::<F, _>(cfg.m, RunOp { cfg, ix })
     }
@@ -353,6 +424,7 @@ fn reference(cfg: &Cfg) -> Cfg {
     c.dataset = false;
     c.notol_db = false;
     c.notol_op = false;
+    c.unchecked = false;
     c
 }
 
@@ -407,6 +479,39 @@ fn show_opt(x: &Option<f64>) -> String {
 }
 fn show_optics(o: &OptOut) -> String {
     o.iter().map(|(i, c, r)| format!("{}:{}:{}", i, show_opt(c), show_opt(r))).collect::<Vec<_>>().join(";")
+}
+
+/// replay of an OPTICS ordering (same replay as `hasTie` in Drv/C08.lean, on the implementation's output):
+/// was there, when a sample was taken from the seed list, another waiting seed with the same reachability?
+/// Only used to COUNT how many orderings the correspondence compares exactly (the model decides the skip).
+fn seed_tie(out: &OptOut, nb: &[Vec<usize>], dm: &[Vec<f64>]) -> bool {
+    let n = nb.len();
+    let mut processed = vec![false; n];
+    let mut reach: Vec<Option<f64>> = vec![None; n];
+    let mut tie = false;
+    for (i, core, _) in out {
+        if *i >= n {
+            return false;
+        }
+        if let Some(r) = reach[*i] {
+            tie |= (0..n).any(|j| j != *i && !processed[j] && reach[j] == Some(r));
+        }
+        processed[*i] = true;
+        if let Some(cd) = core {
+            for &j in &nb[*i] {
+                if j < n && !processed[j] {
+                    let r = f64::max(*cd, dm[j][*i]);
+                    if reach[j].map_or(true, |s| r < s) {
+                        reach[j] = Some(r);
+                    }
+                }
+            }
+        }
+    }
+    tie
+}
+fn n_clusters(labels: &[Option<usize>]) -> usize {
+    labels.iter().filter_map(|l| *l).max().map_or(0, |c| c + 1)
 }
 
 // ------------------------------------------------------------------------------------------ oracle
@@ -538,11 +643,16 @@ fn oracle_optics(ctx: &mut Ctx, class: &str, adj: &[Vec<bool>], dm: &[Vec<f64>],
 /// (points, features, kind, optional (tolerance, min_points) the shape was built for)
 fn gen_points(em: &mut Em, rng: &mut Rng) -> (Vec<Vec<f64>>, usize, &'static str, Option<(f64, usize)>) {
     let big = rng.chance(1, 4);
+    // one configuration in 12 above 64 samples (anything gated on the number of rows: a size switch, a
+    // fixed-width bitset, trees several levels deep)
+    let huge = rng.chance(1, 12);
     let nmax = if em.thorough() { if big { 70 } else { 16 } } else if big { 36 } else { 12 };
     let nmin = if big { 17 } else { 0 };
-    let n = rng.range(nmin as i64, nmax as i64) as usize;
+    let n = if huge { rng.range(65, if em.thorough() { 160 } else { 110 }) as usize } else { rng.range(nmin as i64, nmax as i64) as usize };
     let scale = *rng.pick(&[1.0, 1.0, 0.5, 0.25, 4.0]);
-    let kind = rng.below(12);
+    // 0 chain, 1 ring, 2 touching, 3 duplicates, 4|5 lattice, 6 noise, 7 zero features, 8|9 clumps,
+    // 10|11 bridge, 12.. generic float cloud (free of seed ties: the OPTICS ordering is compared exactly)
+    let kind = rng.below(16);
     let mut hint: Option<(f64, usize)> = None;
     let mut p = if rng.chance(1, 6) { 4 + rng.below(3) } else { 1 + rng.below(3) };
     let mut pts: Vec<Vec<i64>> = vec![];
@@ -635,6 +745,9 @@ fn gen_points(em: &mut Em, rng: &mut Rng) -> (Vec<Vec<f64>>, usize, &'static str
             // several tight clumps far apart, a few stray samples
             let c = 2 + rng.below(4);
             let axis = rng.below(p);
+            // enough samples for every clump to hold a core sample of the `min_points` the shape is built for
+            let k_hint = 2 + rng.below(3);
+            let n = if rng.chance(2, 3) { n.max(c * (k_hint + 1)) } else { n };
             let per = (n / c).max(1);
             for i in 0..n {
                 let k = (i / per).min(c - 1) as i64;
@@ -645,9 +758,9 @@ fn gen_points(em: &mut Em, rng: &mut Rng) -> (Vec<Vec<f64>>, usize, &'static str
                 }
                 pts.push(v);
             }
-            hint = Some((*rng.pick(&[1.5, 2.5]) * scale, 2 + rng.below(3)));
+            hint = Some((*rng.pick(&[1.5, 2.5]) * scale, k_hint));
         }
-        10 => {
+        10 | 11 => {
             name = "bridge";
             // two clusters and a sample in range of a core point of each, itself not core:
             // mp samples at 0, one at 1, the bridge at 3, one at 5, mp samples at 6; tolerance 2.5
@@ -711,7 +824,7 @@ fn gen_tol(rng: &mut Rng, pts: &[Vec<f64>], m: Met) -> (f64, bool) {
     if v.is_empty() {
         return (*rng.pick(&[0.5, 1.0, 3.0]), true);
     }
-    if rng.chance(1, 25) {
+    if rng.chance(1, 10) {
         return (f64::INFINITY, true);
     }
     // mostly the smallest few distinct distances, one time in five any of them (medium / large radii)
@@ -754,7 +867,7 @@ fn round_ty(x: f64, f32_: bool) -> f64 {
 pub fn run(em: &mut Em, rng: &mut Rng) {
     let configs = if em.thorough() { 25000 } else { 1500 };
     params_grid(em);
-    let plain = |pts: Vec<Vec<f64>>, p: usize, m: Met, tol: f64, mp: usize| Cfg { pts, p, kind: "witness", m, tol, mp, f32: false, lay: Lay::C, dataset: false, ctor: Ctor::With, notol_db: false, notol_op: false };
+    let plain = |pts: Vec<Vec<f64>>, p: usize, m: Met, tol: f64, mp: usize| Cfg { pts, p, kind: "witness", m, tol, mp, f32: false, lay: Lay::C, dataset: false, ctor: Ctor::With, notol_db: false, notol_op: false, unchecked: false, ext: "" };
     // the design's witness for the neighbour-order dependence of the OPTICS core distance first
     one_config(em, &plain(vec![vec![0.0], vec![3.0], vec![0.5], vec![2.5], vec![1.0], vec![9.0], vec![9.5]], 1, Met::L2, 2.75, 3));
     one_config(em, &plain(vec![vec![0.0, 0.0], vec![3.0, 4.0], vec![6.0, 8.0], vec![3.0, 4.0]], 2, Met::L2, 5.0, 2));
@@ -767,12 +880,27 @@ pub fn run(em: &mut Em, rng: &mut Rng) {
         c.ctor = Ctor::Default;
         one_config(em, &c);
     }
+    // `min_points` far above the number of samples: everything is noise (`find_neighbors` of DBSCAN reserved
+    // `min_points` slots per call: capacity overflow); in the unchecked form of the doc test
+    {
+        let mut c = plain(vec![vec![0.0, 0.0], vec![1.0, 0.0], vec![0.0, 1.0], vec![9.0, 9.0]], 2, Met::L2, 1.25, usize::MAX >> 2);
+        c.ctor = Ctor::Default;
+        c.unchecked = true;
+        one_config(em, &c);
+    }
+    // tolerance whose square underflows (L2 compares squared distances): duplicates are within any positive
+    // tolerance of each other
+    one_config(em, &{
+        let mut c = plain(vec![vec![1.0], vec![1.0], vec![1.0], vec![5.0]], 1, Met::L2, 1e-200, 2);
+        c.ext = "tiny";
+        c
+    });
     for _ in 0..configs {
         let (mut pts, p, kind, hint) = gen_points(em, rng);
         let f32_ = rng.chance(1, 3);
         let n = pts.len();
         // metric: the three of the statement; a parameterised Lp only to make the dist_fn setter observable
-        let ctor = *rng.pick(&[Ctor::With, Ctor::With, Ctor::Default, Ctor::Setters]);
+        let ctor = *rng.pick(&[Ctor::With, Ctor::With, Ctor::Default, Ctor::Default, Ctor::Setters, Ctor::Setters, Ctor::Struct]);
         let m = if ctor == Ctor::Setters && rng.coin() { *rng.pick(&[Met::Lp15, Met::Lp3]) } else { *rng.pick(&[Met::L1, Met::L2, Met::Linf]) };
         // "tiny": lattice coordinates in units of 2^-14, so that DBSCAN's default tolerance 1e-4 separates
         // one step (6.1e-5) from two
@@ -792,6 +920,9 @@ pub fn run(em: &mut Em, rng: &mut Rng) {
         let (mut tol, _) = gen_tol(rng, &pts, m);
         let mut mp = if rng.chance(1, 15) {
             n + 1 + rng.below(2)
+        } else if rng.chance(1, 10) {
+            // far above n: whatever is sized, indexed or cast by `min_points`
+            *rng.pick(&[258usize, 65_538, (1 << 32) + 2, (1 << 61) + 3, usize::MAX >> 2, usize::MAX - 1, usize::MAX])
         } else if n >= 6 && rng.chance(1, 5) {
             // large min_points, up to n
             6 + rng.below(n - 5)
@@ -799,8 +930,9 @@ pub fn run(em: &mut Em, rng: &mut Rng) {
             2 + rng.below(4)
         }
         .max(2);
+        let mp_huge = mp >= 258 && mp > n + 2;
         if let Some((t, k)) = hint {
-            if rng.chance(3, 4) {
+            if !mp_huge && rng.chance(3, 4) {
                 tol = if tiny { t / 16384.0 } else { t };
                 mp = k;
             }
@@ -810,19 +942,43 @@ pub fn run(em: &mut Em, rng: &mut Rng) {
             tol = 1e-4;
             notol_db = rng.chance(2, 3);
         }
+        // extreme tolerances (and a small coordinate scale): the reduced form of the tolerance (`tol^2` for L2)
+        // under- or overflows
+        let mut ext = "";
+        if !tiny && kind != "generic" && kind != "zero_features" && rng.chance(1, 5) {
+            let (sc, t, e): (f64, f64, &'static str) = match (f32_, rng.below(4)) {
+                (false, 0) => (1.0, 1e-200, "tiny"),
+                (false, 1) => (1e-150, 1e-200, "tiny"),
+                (false, 2) => (1e-150, 3e-150 * rng.range(1, 3) as f64 + 0.5e-150, "smallscale"),
+                (false, _) => (1.0, 1e200, "huge"),
+                (true, 0) | (true, 1) => (1.0, 1e-30, "tiny"),
+                (true, 2) => (1.0 / 1073741824.0, (3.0 * rng.range(1, 3) as f64 + 0.5) / 1073741824.0, "smallscale"),
+                (true, _) => (1.0, 1e30, "huge"),
+            };
+            for r in pts.iter_mut() {
+                for c in r.iter_mut() {
+                    *c = round_ty(*c * sc, f32_);
+                }
+            }
+            tol = t;
+            notol_db = false;
+            ext = e;
+        }
         tol = round_ty(tol, f32_);
-        let notol_op = tol.is_infinite() && rng.coin();
+        let notol_op = tol.is_infinite() && rng.chance(3, 4);
         let lay = *rng.pick(&[Lay::C, Lay::C, Lay::C, Lay::F, Lay::T, Lay::Strided, Lay::RowStep]);
         let dataset = rng.chance(1, 4);
+        let unchecked = rng.chance(1, 4);
         em.count(&format!("kind:{}", kind));
         if tiny {
             em.count("tiny_scale");
         }
-        one_config(em, &Cfg { pts, p, kind, m, tol, mp, f32: f32_, lay, dataset, ctor, notol_db, notol_op });
+        one_config(em, &Cfg { pts, p, kind, m, tol, mp, f32: f32_, lay, dataset, ctor, notol_db, notol_op, unchecked, ext });
     }
 }
 
-/// hyper-parameter glue: constructors, setters, `check` / `check_ref`, accessors
+/// hyper-parameter glue: constructors, setters, `check` / `check_ref`, accessors, and the unchecked
+/// `params.transform(x) -> Result` on a three-sample dataset
 fn params_grid(em: &mut Em) {
     let tols: [f64; 10] = [-1.0, -0.0, 0.0, 1e-300, 1e-30, 0.5, 1e-4, f64::INFINITY, f64::NEG_INFINITY, f64::NAN];
     for algo in ["dbscan", "optics"] {
@@ -834,7 +990,14 @@ fn params_grid(em: &mut Em) {
                         let tol = if notol { 0.0 } else { round_ty(tols[k], f32_) };
                         let ty = if f32_ { "f32" } else { "f64" };
                         let tol_s = if tol.is_nan() { "nan".to_string() } else { hex64(tol) };
-                        let op = format!("params algo={} ty={} mp={} tol={} notol={} ctor={}", algo, ty, mp, tol_s, notol as u8, ctor.name());
+                        // a NaN tolerance is outside the statement's quantifier (the code accepts it: `NaN <= 0` is
+                        // false); whether it is accepted or rejected is promised by nothing: oracle-only request
+                        // (no panic, `check` = `check_ref` = unchecked `transform`), not compared with the model
+                        let unpromised = tol.is_nan() && !notol;
+                        if unpromised {
+                            em.count("params:nan_tolerance_not_compared");
+                        }
+                        let op = format!("{}params algo={} ty={} mp={} tol={} notol={} ctor={}", if unpromised { "#" } else { "" }, algo, ty, mp, tol_s, notol as u8, ctor.name());
                         let class = format!("params:{}:ty={}:ctor={}", algo, ty, ctor.name());
                         em.case_valid(op, &class, |ctx| if f32_ { params_case::<f32>(ctx, &class, algo, mp, tol, notol, ctor) } else { params_case::<f64>(ctx, &class, algo, mp, tol, notol, ctor) });
                     }
@@ -843,62 +1006,93 @@ fn params_grid(em: &mut Em) {
         }
     }
 }
-fn show_tol(t: f64) -> String {
+/// `unbounded` from the largest finite value of the scalar type on (`F::infinity()` in the code, `f64::MAX` in
+/// the doc comment of `Optics::params`: the same neighbourhoods on finite records)
+fn show_tol<F: Float>(t: F) -> String {
     if t.is_nan() {
         "nan".to_string()
+    } else if t >= F::max_value() {
+        "unbounded".to_string()
     } else {
-        hex64(t)
+        hex64(f64of(t))
     }
 }
 fn params_case<F: Float>(ctx: &mut Ctx, class: &str, algo: &str, mp: usize, tol: f64, notol: bool, ctor: Ctor) -> String {
     let kd = CommonNearestNeighbour::KdTree;
     // what the statement's guard says: min_points >= 2, tolerance > 0
     let tol_eff = if notol { if algo == "dbscan" { f64of(F::cast(1e-4)) } else { f64::INFINITY } } else { tol };
-    let valid = mp >= 2 && !(tol_eff <= 0.0);
+    let valid = mp >= 2 && tol_eff > 0.0;
+    let nan = tol_eff.is_nan();
+    let both_invalid = mp <= 1 && tol_eff <= 0.0;
+    // three samples, two of them within any positive tolerance >= 1 of each other
+    let x = Array2::from_shape_fn((3, 1), |(i, _)| F::cast([0.0, 0.25, 9.0][i]));
     if algo == "dbscan" {
         let b = match ctor {
-            Ctor::With => Dbscan::params_with::<F, _, _>(mp, L2Dist, kd.clone()),
+            Ctor::With | Ctor::Struct => Dbscan::params_with::<F, _, _>(mp, L2Dist, kd.clone()),
             Ctor::Default => Dbscan::params::<F>(mp),
             Ctor::Setters => Dbscan::params_with::<F, _, _>(mp, L2Dist, CommonNearestNeighbour::LinearSearch).dist_fn(L2Dist).nn_algo(kd.clone()),
         };
         let b = if notol { b } else { b.tolerance(F::cast(tol)) };
         let by_ref = b.check_ref().is_ok();
+        // the unchecked form runs the guard too: Err exactly when `check` says so, with the same error
+        let unchecked: Option<Result<Array1<Option<usize>>, DbscanParamsError>> = if nan { None } else { Some(b.transform(&x)) };
         let r = b.check();
         ctx.require(by_ref == r.is_ok(), "params_guard", class, || "check_ref and check disagree".to_string());
-        ctx.require(r.is_ok() == valid, "params_guard", class, || format!("min_points {} tolerance {}: accepted={}, the guard says {}", mp, tol_eff, r.is_ok(), valid));
+        if !nan {
+            ctx.require(r.is_ok() == valid, "params_guard", class, || format!("min_points {} tolerance {}: accepted={}, the guard says {}", mp, tol_eff, r.is_ok(), valid));
+        }
+        if let Some(unchecked) = &unchecked {
+            let same = match (unchecked, &r) {
+                (Ok(l), Ok(v)) => *l == v.transform(&x),
+                (Err(DbscanParamsError::MinPoints), Err(DbscanParamsError::MinPoints)) | (Err(DbscanParamsError::Tolerance), Err(DbscanParamsError::Tolerance)) => true,
+                _ => false,
+            };
+            ctx.require(same, "unchecked_form", class, || format!("params.transform(x) gave {:?}, check() then transform gives something else (accepted={})", unchecked, r.is_ok()));
+        }
         match r {
             Ok(v) => {
-                ctx.require(*v.nn_algo() == kd && *v.dist_fn() == L2Dist, "params_accessors", class, || format!("nn_algo {:?}", v.nn_algo()));
-                format!("ok mp={} tol={}", v.minimum_points(), show_tol(f64of(v.tolerance())))
+                // the index and the distance that were passed in explicitly must come back; what `params(mp)`
+                // chooses by default is not the statement's business
+                if ctor != Ctor::Default {
+                    ctx.require(*v.nn_algo() == kd && *v.dist_fn() == L2Dist, "params_accessors", class, || format!("nn_algo {:?}", v.nn_algo()));
+                }
+                format!("ok mp={} tol={}", v.minimum_points(), show_tol(v.tolerance()))
             }
+            Err(_) if both_invalid => "err invalid".to_string(),
             Err(DbscanParamsError::MinPoints) => "err MinPoints".to_string(),
             Err(DbscanParamsError::Tolerance) => "err Tolerance".to_string(),
         }
     } else {
         let b = match ctor {
-            Ctor::With => Optics::params_with::<F, _, _>(mp, L2Dist, kd.clone()),
+            Ctor::With | Ctor::Struct => Optics::params_with::<F, _, _>(mp, L2Dist, kd.clone()),
             Ctor::Default => Optics::params::<F>(mp),
             Ctor::Setters => Optics::params_with::<F, _, _>(mp, L2Dist, CommonNearestNeighbour::LinearSearch).dist_fn(L2Dist).nn_algo(kd.clone()),
         };
         let b = if notol { b } else { b.tolerance(F::cast(tol)) };
         let by_ref = b.check_ref().is_ok();
+        let unchecked: Option<Result<OpticsAnalysis<F>, OpticsError>> = if nan { None } else { Some(b.transform(x.view())) };
         let r = b.check();
         ctx.require(by_ref == r.is_ok(), "params_guard", class, || "check_ref and check disagree".to_string());
-        ctx.require(r.is_ok() == valid, "params_guard", class, || format!("min_points {} tolerance {}: accepted={}, the guard says {}", mp, tol_eff, r.is_ok(), valid));
+        if !nan {
+            ctx.require(r.is_ok() == valid, "params_guard", class, || format!("min_points {} tolerance {}: accepted={}, the guard says {}", mp, tol_eff, r.is_ok(), valid));
+        }
+        if let Some(unchecked) = &unchecked {
+            let same = match (unchecked, &r) {
+                (Ok(l), Ok(v)) => *l == v.transform(x.view()),
+                (Err(_), Err(_)) => true,
+                _ => false,
+            };
+            ctx.require(same, "unchecked_form", class, || format!("params.transform(x) accepted={}, check() accepted={}", unchecked.is_ok(), r.is_ok()));
+        }
         match r {
             Ok(v) => {
-                ctx.require(*v.nn_algo() == kd && *v.dist_fn() == L2Dist, "params_accessors", class, || format!("nn_algo {:?}", v.nn_algo()));
-                format!("ok mp={} tol={}", v.minimum_points(), show_tol(f64of(v.tolerance())))
-            }
-            Err(OpticsError::InvalidValue(msg)) => {
-                if msg.contains("tolerance") {
-                    "err Tolerance".to_string()
-                } else if msg.contains("min_points") {
-                    "err MinPoints".to_string()
-                } else {
-                    format!("err other:{}", hexstr(&msg))
+                if ctor != Ctor::Default {
+                    ctx.require(*v.nn_algo() == kd && *v.dist_fn() == L2Dist, "params_accessors", class, || format!("nn_algo {:?}", v.nn_algo()));
                 }
+                format!("ok mp={} tol={}", v.minimum_points(), show_tol(v.tolerance()))
             }
+            // one error kind for either parameter (the message wording is not compared)
+            Err(OpticsError::InvalidValue(_)) => "err InvalidValue".to_string(),
         }
     }
 }
@@ -911,8 +1105,14 @@ fn one_config(em: &mut Em, cfg: &Cfg) {
     let ty = if cfg.f32 { "f32" } else { "f64" };
     em.count(&format!("stream:{}", stream));
     em.count(&format!("metric:{}", m.name()));
-    em.count(&format!("n:{}", if n == 0 { "0" } else if n <= 4 { "1-4" } else if n <= 16 { "5-16" } else { ">16" }));
-    em.count(&format!("mp:{}", if mp > n { ">n".to_string() } else if mp >= 6 { "6..n".to_string() } else { mp.to_string() }));
+    em.count(&format!("n:{}", if n == 0 { "0" } else if n <= 4 { "1-4" } else if n <= 16 { "5-16" } else if n <= 64 { ">16" } else { ">64" }));
+    em.count(&format!("mp:{}", if mp >= 258 && mp > n + 2 { "far_above_n".to_string() } else if mp > n { ">n".to_string() } else if mp >= 6 { "6..n".to_string() } else { mp.to_string() }));
+    if !cfg.ext.is_empty() {
+        em.count(&format!("tolerance:{}", cfg.ext));
+    }
+    if cfg.unchecked {
+        em.count("form:unchecked");
+    }
     em.count(&format!("features:{}", if p >= 4 { "4-6".to_string() } else { p.to_string() }));
     em.count(&format!("ty:{}", ty));
     em.count(&format!("lay:{}", cfg.lay.name()));
@@ -928,8 +1128,14 @@ fn one_config(em: &mut Em, cfg: &Cfg) {
     }
     let feat = if p == 0 { "0" } else { "pos" };
     let refc = reference(cfg);
+    // L2 compares squared distances with the squared tolerance: a tolerance whose square is 0 in the scalar
+    // type puts nothing in range, not even a duplicate (open finding; class token `tol=sq_underflow`)
+    let sq_underflow = m == Met::L2 && tol > 0.0 && if cfg.f32 { (tol as f32) * (tol as f32) == 0.0 } else { tol * tol == 0.0 };
+    if sq_underflow {
+        em.count("tolerance:sq_underflow");
+    }
     let tail = format!(
-        "pts={} tol={} metric={} ty={} lay={} form={} ctor={} notol={}{}",
+        "pts={} tol={} metric={} ty={} lay={} form={} ctor={} call={} notol={}{}",
         list2(pts.iter().map(|r| r.iter()), |c| hex64(*c)),
         hex64(tol),
         m.name(),
@@ -937,12 +1143,14 @@ fn one_config(em: &mut Em, cfg: &Cfg) {
         cfg.lay.name(),
         if cfg.dataset { "dataset" } else { "array" },
         cfg.ctor.name(),
+        if cfg.unchecked { "unchecked" } else { "checked" },
         cfg.notol_db as u8,
         cfg.notol_op as u8
     );
+    let mut nb_linear: Option<Vec<Vec<usize>>> = None;
     for (ix, ixname) in IDX.iter() {
         let ctor_eff = if cfg.ctor == Ctor::Default && !(m == Met::L2 && *ixname == "kdtree") { Ctor::With } else { cfg.ctor };
-        let cls = |algo: &str| format!("{}:index={}:metric={}:feat={}:stream={}:ty={}:lay={}:ctor={}", algo, ixname, m.name(), feat, stream, ty, cfg.lay.name(), ctor_eff.name());
+        let cls = |algo: &str| format!("{}:index={}:metric={}:feat={}:stream={}:ty={}:lay={}:ctor={}{}", algo, ixname, m.name(), feat, stream, ty, cfg.lay.name(), ctor_eff.name(), if sq_underflow { ":tol=sq_underflow" } else { "" });
         let obs = catch_unwind(AssertUnwindSafe(|| observe_c(cfg, ix)));
         let real = match obs {
             Ok(r) => r,
@@ -958,6 +1166,55 @@ fn one_config(em: &mut Em, cfg: &Cfg) {
             if real.nb.iter().enumerate().any(|(i, l)| l.windows(2).any(|w| real.dm[i][w[0]] > real.dm[i][w[1]])) {
                 em.count(&format!("unsorted_neighbours:{}", ixname));
             }
+        }
+        if !real.zd {
+            // does this index return the neighbours in another order than the linear scan?  (a tree of one
+            // leaf does not: the power of `index_independent` to see an order dependence rests on this)
+            if *ixname == "linear" {
+                nb_linear = Some(real.nb.clone());
+            } else if let Some(l) = &nb_linear {
+                let same_sets = l.iter().zip(&real.nb).all(|(a, b)| {
+                    let (mut a, mut b) = (a.clone(), b.clone());
+                    a.sort();
+                    b.sort();
+                    a == b
+                });
+                if same_sets && *l != real.nb {
+                    em.count(&format!("order_differs_from_linear:{}", ixname));
+                }
+            }
+        }
+        // the hypotheses of the theorems (`hrange`, `hnd`, `hsym`) on the recorded query results, and — on
+        // stream=main — that they are the neighbourhoods of the definition `{j | d(i,j) < tol}` (`rangeQuery`)
+        if !real.zd && main {
+            let c0 = cls("nbrs");
+            let c = c0.clone();
+            let nb = real.nb.clone();
+            let (ptsc, sq) = (pts.clone(), sq_underflow);
+            em.case_valid(format!("#nbrs n={} index={} {}", n, ixname, tail), &c0, move |ctx| {
+                let n = nb.len();
+                let range = nb.iter().all(|l| l.iter().all(|&j| j < n));
+                ctx.require(range, "query_hypotheses", &c, || "a query returned a position outside the dataset".to_string());
+                if range {
+                    let nodup = nb.iter().all(|l| {
+                        let mut v = l.clone();
+                        v.sort();
+                        v.windows(2).all(|w| w[0] != w[1])
+                    });
+                    ctx.require(nodup, "query_hypotheses", &c, || "a query returned a position twice".to_string());
+                    let sym = (0..n).all(|i| nb[i].iter().all(|&j| nb[j].contains(&i)));
+                    ctx.require(sym, "query_hypotheses", &c, || "the recorded relation is not symmetric".to_string());
+                    if !sq {
+                        for i in 0..n {
+                            let want: Vec<usize> = (0..n).filter(|&j| m.my(&ptsc[i], &ptsc[j]) < tol).collect();
+                            let mut got = nb[i].clone();
+                            got.sort();
+                            ctx.require(got == want, "range_query", &c, || format!("sample {}: within_range returned {:?}, the samples at distance < tolerance are {:?}", i, got, want));
+                        }
+                    }
+                }
+                "ok".to_string()
+            });
         }
         let adj = neighbourhood(pts, m, tol, main, &real);
         if adj.is_none() {
@@ -1006,8 +1263,9 @@ fn one_config(em: &mut Em, cfg: &Cfg) {
                 let out = dbscan_c(cfg, ix);
                 let labels = out.labels;
                 // zero features: the listed finding is "everything is noise"; anything else is a different failure
-                let c = if p == 0 { format!("{}:out={}", c0, if labels.iter().all(|l| l.is_none()) { "all_noise" } else { "other" }) } else { c0.clone() };
+                let c = if p == 0 || sq_underflow { format!("{}:out={}", c0, if labels.iter().all(|l| l.is_none()) { "all_noise" } else { "other" }) } else { c0.clone() };
                 ctx.require(out.records_kept, "dataset_form", &c, || "the dataset returned by transform(DatasetBase) does not carry the records passed in".to_string());
+                ctx.require(out.accessors_ok, "params_accessors", &c, || "minimum_points / tolerance / dist_fn / nn_algo of the checked parameters do not show what was configured".to_string());
                 if let Some(adj) = &adj {
                     oracle_dbscan(ctx, &c, adj, mp, &labels);
                 }
@@ -1019,7 +1277,7 @@ fn one_config(em: &mut Em, cfg: &Cfg) {
                     ctx.mark_trivial();
                 }
                 ran.set(true);
-                format!("ok {}", canon_labels(&real.nb, mp, &labels))
+                format!("ok {} c={}{}", canon_labels(&real.nb, mp, &labels), n_clusters(&labels), if cfg.dataset { if out.records_kept { " rec=1" } else { " rec=0" } } else { "" })
             });
             if ran.get() {
                 em.count(&format!("ran:dbscan:ty={}:lay={}:ctor={}:form={}", ty, cfg.lay.name(), ctor_eff.name(), if cfg.dataset { "dataset" } else { "array" }));
@@ -1034,11 +1292,16 @@ fn one_config(em: &mut Em, cfg: &Cfg) {
             let op = format!("optics n={} mp={} zd={} nb={} nd={} index={} {}", n, mp, zd, nb_s, nd_s, ixname, tail);
             let c0 = cls("optics");
             let ran = Cell::new(false);
+            let tie_free = Cell::new(false);
             em.case_valid(op, &c0, |ctx| {
                 let res = optics_c(cfg, ix);
                 let out = res.out;
-                let c = if p == 0 { format!("{}:out={}", c0, if out.iter().all(|e| e.1.is_none() && e.2.is_none()) { "all_undefined" } else { "other" }) } else { c0.clone() };
+                let c = if p == 0 || sq_underflow { format!("{}:out={}", c0, if out.iter().all(|e| e.1.is_none() && e.2.is_none()) { "all_undefined" } else { "other" }) } else { c0.clone() };
                 ctx.require(res.accessors_agree, "accessors", &c, || "OpticsAnalysis::as_slice / iter / index do not show the same samples".to_string());
+                ctx.require(res.accessors_ok, "params_accessors", &c, || "minimum_points / tolerance / dist_fn / nn_algo of the checked parameters do not show what was configured".to_string());
+                if !real.zd && out.len() == n {
+                    tie_free.set(!seed_tie(&out, &real.nb, &real.dm));
+                }
                 if let Some(adj) = &adj {
                     oracle_optics(ctx, &c, adj, &real.dm, mp, &out);
                 }
@@ -1059,7 +1322,27 @@ fn one_config(em: &mut Em, cfg: &Cfg) {
                 if cfg.notol_op {
                     em.count("ran:optics:default_tolerance");
                 }
+                // orderings free of seed ties are the ones the correspondence compares exactly (the rest is
+                // `tie_skipped`): a floor on this count is the ceiling on the skipped share
+                em.count(if tie_free.get() { "optics_ordering:no_seed_tie" } else { "optics_ordering:seed_tie_or_zero_features" });
             }
+        }
+        // ---- the same two runs in the terms of the definition: the model is run on `rangeQuery dist tol n`
+        // with the full distance matrix of the real `dist_fn` (linear scan, stream=main, up to 40 samples)
+        if *ixname == "linear" && main && !real.zd && !sq_underflow && n <= 40 {
+            let dm_s = list2(real.dm.iter().map(|l| l.iter()), |d| hex64(*d));
+            let nb_show = list2(real.nb.iter().map(|l| l.iter()), |j| j.to_string());
+            let c0 = cls("dbscan");
+            em.case_valid(format!("dbscanrq n={} mp={} tol={} dm={} {}", n, mp, hex64(tol), dm_s, tail), &c0, |_| {
+                let labels = dbscan_c(cfg, ix).labels;
+                format!("ok nb={} {} c={}", nb_show, canon_labels(&real.nb, mp, &labels), n_clusters(&labels))
+            });
+            let c0 = cls("optics");
+            em.case_valid(format!("opticsrq n={} mp={} tol={} dm={} {}", n, mp, hex64(tol), dm_s, tail), &c0, |_| {
+                let out = optics_c(cfg, ix).out;
+                format!("ok {} margin=~{}", show_optics(&out), hex64(1.0))
+            });
+            em.count("ran:definition_form");
         }
     }
 }
